@@ -7,6 +7,7 @@
    (validated against the RFC vectors and crypto/* by the checks); the theorem does not depend on which
    functions they are, only on both sides applying the same function to the same bytes. *)
 From BMC Require Import Base Prim Layers Layers2 Serialize Packet Conn Hmac Handshake HandshakeProofs ChannelFacts SpecBmc KeyAgreement.
+From BMC Require Import RequestProofs SessionUse.
 From Coq Require Import String.
 Notation length := List.length (only parsing).
 From BMCProps Require Import TieCrypto.
@@ -38,8 +39,39 @@ Theorem C01_key_agreement :
     new_session o s random [Some d1] [Some d2] [Some d3] = (sent, inl e) /\
     es_sik e = Bmc.a_sik act /\ es_k1 e = Bmc.a_k1 act /\ es_k2 e = Bmc.a_k2 act /\
     es_remote_id e = Bmc.a_bmc_id act /\ es_local_id e = Bmc.a_console_id act /\
-    es_suite e = s /\ Bmc.a_integ act = su_integ s /\ Bmc.a_conf act = su_conf s.
+    es_suite e = s /\ Bmc.a_integ act = su_integ s /\ Bmc.a_conf act = su_conf s /\
+    Bmc.a_bmc_id act = new_id /\ es_aes_key e = aes_key_of (es_k2 e).
 Proof. exact key_agreement. Qed.
+
+(* ... and every command subsequently sent on that session (any sequence number, IV, command, LUN, body that fits
+   the wrapper's length field) passes the BMC's integrity check and decryption and is read by the BMC as exactly
+   the command the caller asked for.  No premise about AES or the hashes: AES-128 invertibility and the byte range
+   / length of HMAC outputs are proved (AesInverse.v, HashBytes.v).  That the reply is returned to the caller is
+   C04/C10/C11 (`session_accept_sound`, `session_verdict_final`). *)
+Theorem C01_commands_accepted :
+  forall (o : session_opts) (s : suite) (random rc : bytes) (new_id : N) (cfg : Bmc.config)
+         (supported : N -> N -> N -> bool) (pwb : bytes),
+  In (su_auth s) [1; 2; 3] -> In (su_integ s) [1; 2; 4] -> su_conf s = 1 ->
+  supported (su_auth s) (su_integ s) (su_conf s) = true ->
+  so_priv o < 16 -> (length (so_user o) <= 16)%nat -> length random = 16%nat -> length rc = 16%nat ->
+  length (Bmc.guid cfg) = 16%nat -> new_id < 4294967296 ->
+  Bmc.find_user cfg (role_of o) (so_user o) = Some pwb ->
+  Bmc.pad20 pwb = Bmc.pad20 (so_password o) ->
+  (length pwb <= 20)%nat /\ (length (so_password o) <= 20)%nat ->
+  Bmc.kg cfg = so_kg o /\ (so_kg o = [] \/ length (so_kg o) = 20%nat) ->
+  exists d1 d2 d3 sent e act sess,
+    (* the handshake of C01_key_agreement: console session [e], BMC session [act] *)
+    new_session o s random [Some d1] [Some d2] [Some d3] = (sent, inl e) /\
+    es_sik e = Bmc.a_sik act /\ es_k1 e = Bmc.a_k1 act /\ es_k2 e = Bmc.a_k2 act /\
+    session_of e = Some sess /\
+    (* every command on it *)
+    forall seq iv op lun body pkt,
+      seq < 4294967296 -> length iv = 16%nat -> Forall (fun b => b < 256) iv -> Forall (fun b => b < 256) body ->
+      op_fn op < 64 -> op_fn op mod 2 = 0 -> op_fn op <> 0x2e -> op_cmd op < 256 -> lun < 4 ->
+      (op_fn op = 0x2c -> op_body op < 256) -> request_message_length op body < 65504 ->
+      session_command_packet sess seq iv op lun body = Ok pkt ->
+      Bmc.accept act pkt = Some (iv, seq, expected_lanreq op lun body).
+Proof. exact established_commands_accepted. Qed.
 
 (* suites with None for integrity or confidentiality are refused with an error, never half-supported *)
 Theorem C01_none_is_refused : forall o s random sc1 sc2 sc3 sent e,
